@@ -24,6 +24,7 @@ import (
 	"net"
 	"sort"
 	"strconv"
+	"strings"
 	"testing"
 
 	"github.com/emersion/go-message/textproto"
@@ -35,6 +36,7 @@ import (
 	"github.com/foxcpp/maddy/framework/module"
 	"github.com/foxcpp/maddy/internal/testutils"
 	"github.com/foxcpp/go-mtasts"
+	miekgdns "github.com/miekg/dns"
 )
 
 const (
@@ -82,6 +84,32 @@ func v5MkTa() {
 	v5TaChain = &tls.Certificate{Certificate: [][]byte{leaf.Raw, ca.Raw}, PrivateKey: leafKey}
 	sum := sha256.Sum256(ca.RawSubjectPublicKeyInfo)
 	v5TaPin = hex.EncodeToString(sum[:])
+}
+
+// v5Front stands before the mock DNS server and answers the TLSA queries for chosen names with
+// REFUSED (a name server or a load balancer that does not know the type); everything else is
+// passed on.
+type v5Front struct {
+	upstream string
+	refused  map[string]bool
+}
+
+func (f *v5Front) ServeDNS(w miekgdns.ResponseWriter, m *miekgdns.Msg) {
+	if len(m.Question) == 1 && m.Question[0].Qtype == miekgdns.TypeTLSA && f.refused[strings.ToLower(m.Question[0].Name)] {
+		reply := new(miekgdns.Msg)
+		reply.SetRcode(m, miekgdns.RcodeRefused)
+		w.WriteMsg(reply)
+		return
+	}
+	c := new(miekgdns.Client)
+	r, _, err := c.Exchange(m, f.upstream)
+	if err != nil {
+		reply := new(miekgdns.Msg)
+		reply.SetRcode(m, miekgdns.RcodeServerFailure)
+		w.WriteMsg(reply)
+		return
+	}
+	w.WriteMsg(r)
 }
 
 type v5MX struct {
@@ -211,6 +239,8 @@ func TestVerif_C05(t *testing.T) {
 			}
 		}
 		// ---- DNS ----
+		refusedTLSA := map[string]bool{}
+		var dnsFront *miekgdns.Server
 		zones := map[string]mockdns.Zone{}
 		var mxrecs []net.MX
 		var stsPatterns []string
@@ -238,7 +268,12 @@ func TestVerif_C05(t *testing.T) {
 			case "DUnusable":
 				zones[tl] = mockdns.Zone{AD: true, Misc: tlsaRecord(tl, 9, 1, 1, "a9b5cb4d02f996f6385debe9a8952f1af1f4aec7eae0f37c2cd6d0d8ee8391cf")}
 			case "DLookupFail":
-				zones[tl] = mockdns.Zone{Err: &net.DNSError{}}
+				if ci%2 == 1 { // the unusual way to fail: REFUSED instead of SERVFAIL
+					refusedTLSA[strings.ToLower(tl)] = true
+					stats["tlsa_lookup_refused"]++
+				} else {
+					zones[tl] = mockdns.Zone{Err: &net.DNSError{}}
+				}
 			}
 			if m.stsMatch {
 				stsPatterns = append(stsPatterns, m.host)
@@ -262,6 +297,15 @@ func TestVerif_C05(t *testing.T) {
 				t.Fatal(err)
 			}
 			addr := dnsSrv.LocalAddr().(*net.UDPAddr)
+			if len(refusedTLSA) > 0 {
+				pc, err := net.ListenPacket("udp", "127.0.0.1:0")
+				if err != nil {
+					t.Fatal(err)
+				}
+				dnsFront = &miekgdns.Server{PacketConn: pc, Handler: &v5Front{upstream: addr.String(), refused: refusedTLSA}}
+				go dnsFront.ActivateAndServe()
+				addr = pc.LocalAddr().(*net.UDPAddr)
+			}
 			extResolver, err = dns.NewExtResolver()
 			if err != nil {
 				t.Fatal(err)
@@ -392,6 +436,9 @@ func TestVerif_C05(t *testing.T) {
 		}
 		if dnsSrv != nil {
 			dnsSrv.Close()
+			if dnsFront != nil {
+				dnsFront.Shutdown()
+			}
 		}
 		localT := "None"
 		if local != nil {
